@@ -312,6 +312,14 @@ fn on_connect(w: &mut World, conn: usize, pkt: &Packet) {
                 "client-id".into(),
                 format!("CONNECT client id {:?}, expected {:?}", client_id, w.expected_client_id),
             );
+            // C12: the reconnect after whatever happened before is made in the session's name
+            if w.benign {
+                w.violate(
+                    "C12",
+                    "reconnect-under-another-client-id".into(),
+                    format!("the final reconnect's CONNECT carries client id {:?}, the session's is {:?}: the broker takes the client for another one", client_id, w.expected_client_id),
+                );
+            }
         }
     }
     // C09: CONNECT content
@@ -560,6 +568,9 @@ fn connack_policy(w: &mut World, conn: usize, clean_start: bool, need_id: bool) 
     }
     if let Some(v) = w.force_next_mps.take() {
         mps = Some(v);
+    }
+    if w.cfg.twin_receive_max > 0 {
+        rm = Some(w.cfg.twin_receive_max);
     }
     let assign = need_id || (small && pick(w, t, 16, 8) == 0);
     if let Some(v) = rm {
